@@ -351,6 +351,20 @@ def shard_order(arg) -> E.Tally:
                     got = _frozen(decode(c)[:2])
                     if got != alone[c]:
                         t.bad(f"C05:depends-on-earlier-packet:{c.split()[-3]}", f"decode({c!r}) after {a!r}, {b!r} = {got!r}, alone = {alone[c]!r}"[:400], {"a": a, "b": c, "shard": [i, n, limit, triples]})
+    # a long session in between: packets of 600 other devices (more than any bounded cache of addresses / address sets holds), then the
+    # same packet again
+    flood = [f" I --- 04:{100000 + k:06d} --:------ 01:{200000 + k:06d} 30C9 003 0007D0" for k in range(600)]
+    for j, b in enumerate(reps):
+        if j % n != i:
+            continue
+        t.n += 1
+        fresh()
+        first = _frozen(decode(b)[:2])
+        for f in flood:
+            decode(f)
+        again = _frozen(decode(b)[:2])
+        if again != first or first != alone[b]:
+            t.bad(f"C05:depends-on-earlier-packet:{b.split()[-3]}:long-session", f"decode({b!r}) = {first!r}; after 600 packets of other devices = {again!r}; alone = {alone[b]!r}"[:400], {"a": "flood", "b": b, "shard": [i, n, limit, triples]})
     t.by["ordered_pairs"] = t.n
     return t
 
